@@ -65,4 +65,49 @@ LEMMAS = {
     defs={'share': (['s', 'k'], 's // n + ite(k < s % n, 1, 0)')},
     hyps=['n >= 1', '0 <= a', 'a <= b'],
     goals=[('pointwise', 'forall(k, 0, n, share(a, k) <= share(b, k))')]),
+
+ # ---- LISTSET: the fact schemas pyvc/listsets.py instantiates at list operations, justified from the definitions
+ #      elems(L) = {L[t] | t < len L},  pelems(L,k) = {L[t] | t < min(k, len L)},  dupfree(L) = no repeated entry
+ 'LISTSET/empty-append': dict(
+    vars={'L': ('list', 'int'), 'v': 'int', 'x': 'int'},
+    defs={'E': (['A', 'y'], 'exists(t, 0, len(A), A[t] == y)'),
+          'D': (['A'], 'forall(t, 0, len(A), forall(u, 0, len(A), implies(A[t] == A[u], t == u)))')},
+    hyps=[],
+    goals=[('empty-has-no-element', 'implies(len(L) == 0, not E(L, x) and D(L))'),
+           ('append-adds-exactly-v', 'E(appended(L, v), x) == (E(L, x) or x == v)'),
+           ('append-keeps-dupfree-iff-new', 'D(appended(L, v)) == (D(L) and not E(L, v))')]),
+ 'LISTSET/permute': dict(
+    vars={'L': ('list', 'int'), 'N': ('list', 'int'), 'pi': ('list', 'int'), 'sg': ('list', 'int'), 'x': 'int'},
+    defs={'E': (['A', 'y'], 'exists(t, 0, len(A), A[t] == y)'),
+          'D': (['A'], 'forall(t, 0, len(A), forall(u, 0, len(A), implies(A[t] == A[u], t == u)))')},
+    hyps=['len(N) == len(L)',
+          'forall(t, 0, len(L), 0 <= pi[t] and pi[t] < len(L) and sg[pi[t]] == t and N[t] == L[pi[t]])',
+          'forall(u, 0, len(L), 0 <= sg[u] and sg[u] < len(L) and pi[sg[u]] == u and N[sg[u]] == L[u])'],
+    goals=[('same-elements', 'E(N, x) == E(L, x)'), ('dupfree-preserved', 'D(N) == D(L)')]),
+ 'LISTSET/iterate': dict(
+    vars={'L': ('list', 'int'), 'k': 'int', 'x': 'int'},
+    defs={'E': (['A', 'y'], 'exists(t, 0, len(A), A[t] == y)'),
+          'PE': (['A', 'm', 'y'], 'exists(t, 0, min(m, len(A)), A[t] == y)'),
+          'D': (['A'], 'forall(t, 0, len(A), forall(u, 0, len(A), implies(A[t] == A[u], t == u)))')},
+    hyps=['0 <= k', 'k < len(L)'],
+    goals=[('prefix-0-empty', 'not PE(L, 0, x)'),
+           ('prefix-step', 'PE(L, k + 1, x) == (PE(L, k, x) or x == L[k])'),
+           ('entry-is-element', 'E(L, L[k])'),
+           ('dupfree-entry-not-in-prefix', 'implies(D(L), not PE(L, k, L[k]))'),
+           ('full-prefix-is-all', 'PE(L, len(L), x) == E(L, x)')]),
+
+ # ---- C12 (SPA): composing create_student_lec_lists with create_pref_lists_from_other_lists
+ 'C12/spa-compose': dict(
+    vars={'pls': ('list', ('list', 'int')), 'PL': ('list', 'int'), 'n3': 'int', 'ties2': 'real',
+          'sll': ('list', ('list', 'int')), 'lec': ('list', ('list', 'int')), 'lt': ('list', ('list', 'int'))},
+    hyps=['n3 >= 0', '0 <= ties2', 'ties2 <= 1',
+          ('requires', 'generator_spa:Generator_spa.create_student_lec_lists', {'pref_lists_students': 'pls', 'project_lecturers': 'PL', 'n3': 'n3'}),
+          ('ensures', 'generator_spa:Generator_spa.create_student_lec_lists', {'pref_lists_students': 'pls', 'project_lecturers': 'PL', 'n3': 'n3', 'result': 'sll'})],
+    goals=[('requires', GS + 'create_pref_lists_from_other_lists', {'pref_lists_agent1': 'sll', 'n2': 'n3', 'ties2': 'ties2'}),
+           ('assume', ('ensures', GS + 'create_pref_lists_from_other_lists',
+                       {'pref_lists_agent1': 'sll', 'n2': 'n3', 'ties2': 'ties2', 'result0': 'lec', 'result1': 'lt', 'result': 'lec'})),
+           ('lecturer-lists-student-iff-student-ranks-one-of-their-projects',
+            'forall(l, 0, n3, forall(v, (v in elems(lec[l])) == (1 <= v and v <= len(pls) and '
+            'exists(proj, proj in elems(pls[v - 1]) and PL[proj - 1] == l + 1))))'),
+           ('each-student-once', 'forall(l, 0, n3, dupfree(lec[l]))')]),
 }
